@@ -1,6 +1,6 @@
 (* C19: the hypotheses of the theorems are satisfiable, and the model computes what one expects on small inputs. *)
 From Coq Require Import ZArith List Bool.
-From C19 Require Import Model ProofsBase ProofsInt ProofsRat ProofsElt ProofsPoly.
+From C19 Require Import Model ProofsBase ProofsInt ProofsRat ProofsElt ProofsPoly ProofsDest ProofsPair.
 Import ListNotations.
 Local Open Scope Z_scope.
 
@@ -28,4 +28,25 @@ Proof. vm_compute. reflexivity. Qed.
 Example ex_var_ok : var_ok [88] /\ var_ok [97; 108; 112; 104; 97] /\ var_ok [89; 49].   (* "X", "alpha", "Y1" *)
 Proof. repeat split; discriminate. Qed.
 Example ex_poly_parse : poly_parse [88] (poly_write [88] print_Z [5; 0; -3; 1]) = Some [(0, 5); (2, -3); (3, 1)].
+Proof. vm_compute. reflexivity. Qed.
+(* phase 3: destinations that are not fresh *)
+Example ex_var_ok2 : var_ok2 [88] /\ var_ok2 [97; 108; 112; 104; 97] /\ var_ok2 [84; 95; 48].   (* "X", "alpha", "T_0" *)
+Proof. repeat split; discriminate. Qed.
+Example ex_poly_ok : poly_ok [5; 0; 3] /\ Forall poly_ok [[1]; [0; 7]].
+Proof. split; [split; [discriminate|vm_compute; discriminate]|repeat constructor; try discriminate; vm_compute; discriminate]. Qed.
+Example ex_limbs : length (limbs_of (Nat.pow 2 1) (2 ^ 128 - 1)) = Nat.pow 2 1. Proof. reflexivity. Qed.
+(* "5 55 0 0 0 0 100\n3 1 7 0 3\n1 9 2\n0 7" into one variable that holds eight coefficients 100 *)
+Example ex_poly_seq_dirty :
+  map fst (read_many_into (fun s cur => poly_read_into 0 0 1 (elt_read (init_mod 101)) s 0 cur) 4
+     (from_chars (sep_texts [10] (map (poly_degfmt elt_write) [[100; 0; 0; 0; 0; 55]; [3; 0; 7; 1]; [2; 9]; [7]])))
+     [100; 100; 100; 100; 100; 100; 100; 100])
+  = [[100; 0; 0; 0; 0; 55]; [3; 0; 7; 1]; [2; 9]; [7]].
+Proof. vm_compute. reflexivity. Qed.
+Example ex_int_seq_dirty :
+  read_many_into Integer_in 2 (from_chars (sep_texts [32] (map Integer_out [12; -5]))) (2 ^ 200)
+  = [(12, mkS [32; 45; 53] false false); (-5, mkS [] true false)].
+Proof. vm_compute. reflexivity. Qed.
+Example ex_rat_exc_keeps : fst (rat_read_into (from_chars [52; 47; 48]) (-1, 2)) = ((-1, 2), true).   (* "4/0" *)
+Proof. vm_compute. reflexivity. Qed.
+Example ex_pair_fails : failb (snd (poly_read (elt_read (init_mod 101)) (from_chars (poly_write [88] elt_write [1; 2])) 0)) = true.
 Proof. vm_compute. reflexivity. Qed.
